@@ -232,10 +232,10 @@ func c17R3R4(c *Ctx) {
 
 	// ---- R4
 	for _, spec := range []struct {
-		fn        string
-		closeID   []string
-		preClose  *types.Var // channel that must also be closed before waiting (stopCookieRotate)
-		nonOwner  *types.Var
+		fn       string
+		closeID  []string
+		preClose *types.Var // channel that must also be closed before waiting (stopCookieRotate)
+		nonOwner *types.Var
 	}{
 		{"(*Client).Close", []string{hopID("transport", "UDPLike", "Close"), "(net.Conn).Close", "(io.Closer).Close"}, nil, cl("closeDone")},
 		{"(*Server).Close", []string{hopID("transport", "UDPLike", "Close"), "(net.Conn).Close", "(io.Closer).Close"}, sv("stopCookieRotate"), sv("closeDone")},
